@@ -142,8 +142,78 @@ def check_shared(ctx, prog, stats):
             return
 
 
+_shared_ids = __import__("itertools").count()
+
+
+def build_shared_def(w, defs, how):
+    """every method is a closure of ONE def statement (a factory called once per method, as when a loop registers one
+    shared body for several types): the methods' code objects are the same object until the library renames them"""
+    import linecache
+    import ovld as _ov
+    from ovld.recode import call_next
+    ov = _ov.Ovld(name="f")
+    log = []
+    deleg = "OV.next(a0)" if how == "fnext" else "call_next(a0)"
+    src = ("def make(MID, DELEGATES):\n    def m(a0):\n        LOG.append(MID)\n        if DELEGATES:\n            return " + deleg +
+           "\n        return ('ret', MID)\n    return m\n")
+    fname = f"<verif-c07-shared-{next(_shared_ids)}>"
+    linecache.cache[fname] = (len(src), None, src.splitlines(True), fname)
+    glb = {"LOG": log, "OV": ov, "call_next": call_next, "__name__": "verif_c07_shared"}
+    exec(compile(src, fname, "exec"), glb)
+    dec = progs.Decoder(w)
+    for d in defs:
+        fn = glb["make"](d["id"], d.get("body") in ("next", "fnext"))
+        fn.__annotations__ = {"a0": dec.ty(d["pos"][0])}
+        ov.register(fn, priority=d.get("prio", 0))
+    return ov, log
+
+
+def check_shared_def(ctx, prog, stats):
+    """property oracle: the walk over methods that are closures of one def equals the walk over the same methods written
+    as separate defs (with f.next and with call_next)"""
+    defs = [d for d in prog["defs"]]
+    if not defs or any(len(d["pos"]) != 1 or d["npos_req"] != 1 or d.get("kw") for d in defs):
+        return
+    for how in ("fnext", "next"):
+        ref = progs.Built(world_from(prog["spec"]), [dict(d, body=how if d.get("body") == "next" else "ret") for d in defs], hook=False)
+        w2 = world_from(prog["spec"])
+        ov, log = build_shared_def(w2, defs, how)
+        for call in prog["calls"]:
+            if call["kw"] or len(call["pos"]) != 1:
+                continue
+            exp = ref.call([ref.w.instance(call["pos"][0])])
+            del log[:]
+            import sys
+            old = sys.getrecursionlimit()
+            try:
+                sys.setrecursionlimit(400)
+                r = ov(w2.instance(call["pos"][0]))
+                got = (["run", r[1]] if isinstance(r, tuple) and r and r[0] == "ret" else ["value", repr(r)], list(log))
+            except TypeError as e:
+                m = str(e)
+                got = (["nomethod"] if m.startswith("No method") else ["ambig"] if m.startswith("Ambiguous") else ["exc", "TypeError:" + m[:60]], list(log))
+            except RecursionError:
+                got = (["exc", "RecursionError"], list(log)[:6])
+            except Exception as e:  # noqa
+                got = (["exc", type(e).__name__], list(log))
+            finally:
+                sys.setrecursionlimit(old)
+            stats["evaluations"] += 1
+            stats["shared_def_walks"] += 1
+            if (got[0], got[1]) != (exp[0], exp[1]):
+                from ..model import canon_ty
+                sigs = [json.dumps(canon_ty(d["pos"][0])) for d in defs]     # the adapted name f[types] does not mention the priority
+                if how == "fnext" and len(set(sigs)) < len(sigs) and got[0] == ["exc", "RecursionError"]:
+                    ctx.known_hit("KF-55", {"spec": prog["spec"], "defs": defs, "calls": [call], "shared_def": how})
+                    stats["kf55"] += 1
+                    continue
+                ctx.violation(f"methods written as closures of one def ({how}): walk {got}, as separate defs {exp}",
+                              {"spec": prog["spec"], "defs": defs, "calls": [call], "shared_def": how})
+                return
+
+
 def run(ctx):
-    stats = {"other_class_walks": 0, "shared_walks": 0, "evaluations": 0, "programs": 0, "oracle_steps": 0, "kf01": 0, "nontrivial": set(), "chain_lengths": collections.Counter()}
+    stats = {"other_class_walks": 0, "shared_walks": 0, "shared_def_walks": 0, "kf55": 0, "evaluations": 0, "programs": 0, "oracle_steps": 0, "kf01": 0, "nontrivial": set(), "chain_lengths": collections.Counter()}
     samples = []
     n = 60 if ctx.quick() else 3000
     for _ in range(n):
@@ -153,6 +223,7 @@ def run(ctx):
         check(ctx, prog, stats)
         check_other(ctx, prog, stats)
         check_shared(ctx, prog, stats)
+        check_shared_def(ctx, prog, stats)
         if len(samples) < 2:
             samples.append({"defs": prog["defs"], "call": prog["calls"][0]})
         if len(ctx.violations) > 3:
@@ -160,12 +231,17 @@ def run(ctx):
     return {"evaluations": stats["evaluations"], "distinct_nontrivial": len(stats["nontrivial"]),
             "rule": "random programs (as C02, fixed arity) with 70% of the methods delegating through call_next; a case (world, methods, call) is non-trivial when at least one body ran; distinct by content",
             "samples": samples, "programs": stats["programs"], "visit_chain_length_histogram": {str(k): v for k, v in stats["chain_lengths"].items()},
-            "oracle_steps_against_reduced_functions": stats["oracle_steps"], "walks_with_call_next_on_another_class": stats["other_class_walks"], "walks_after_a_copy_sharing_the_methods_was_used": stats["shared_walks"], "deviations_attributed_to_KF-01": stats["kf01"],
+            "oracle_steps_against_reduced_functions": stats["oracle_steps"], "walks_with_call_next_on_another_class": stats["other_class_walks"], "walks_after_a_copy_sharing_the_methods_was_used": stats["shared_walks"], "walks_over_closures_of_one_def": stats["shared_def_walks"], "deviations_attributed_to_KF-01": stats["kf01"],
             "traces_validated_against_impl": stats["evaluations"]}
 
 
 def replay(ctx, payload):
     prog = payload["case"]
+    if prog.get("shared_def"):
+        stats = collections.Counter()
+        before = len(ctx.violations)
+        check_shared_def(ctx, prog, stats)
+        return len(ctx.violations) > before
     if prog.get("shared"):
         stats = collections.Counter()
         before = len(ctx.violations)
@@ -182,5 +258,22 @@ def replay(ctx, payload):
 
 
 def replay_finding(ctx, e):
+    if e["id"] == "KF-55":
+        wit = e["witness"]
+        import sys
+        ov, log = build_shared_def(world_from(wit["spec"]), wit["defs"], "fnext")
+        w2 = world_from(wit["spec"])
+        ov, log = build_shared_def(w2, wit["defs"], "fnext")
+        old = sys.getrecursionlimit()
+        try:
+            sys.setrecursionlimit(400)
+            ov(w2.instance(wit["calls"][0]["pos"][0]))
+            return False
+        except RecursionError:
+            return True
+        except Exception:  # noqa
+            return False
+        finally:
+            sys.setrecursionlimit(old)
     from . import c02
     return c02.replay_finding(ctx, e)
